@@ -37,6 +37,10 @@ def _mk_input(case, spec):
     out = []
     cplx = spec.get('cplx')          # complex values: base point p[k] + 0.5j p[k'], higher coefficients (1 + 0.5j) hi
     for i, p in enumerate(case['pts']):
+        if spec['kind'] == 'utpm' and spec.get('plain') and spec['plain'][i]:
+            # mixed evaluation: this input is handed over as a plain array (a constant) next to Taylor polynomial inputs
+            out.append(np.array(p[spec['idx'][0]], dtype=float))
+            continue
         if spec['kind'] == 'nd':
             if cplx:
                 out.append(np.array(p[spec['idx'][0]] + 0.5j * p[spec['im'][0]]))
